@@ -394,7 +394,7 @@ func (c *cell) span(kind fx.Kind, T uint, phase string, immediate bool) {
 	}
 }
 
-func (c *cell) ev(what string) { c.hist = append(c.hist, what) }
+func (c *cell) note(what string) { c.hist = append(c.hist, what) }
 
 // stressReliever: fixed stress-relief rate, always keep (dropped stress decisions forward nothing).
 func stressReliever(rate uint) collect.StressReliever {
@@ -433,18 +433,18 @@ func (c *cell) run(keptID, droppedID string) {
 			c.span(fx.Child, T, ph, false)
 			c.span(fx.Root, T, ph, false)
 			f.Advance(sendDelay)
-			c.ev("adv(SendDelay)")
+			c.note("adv(SendDelay)")
 		case "timeout":
 			c.span(fx.Child, T, ph, false)
 			c.span(fx.Child, T, ph, false)
 			f.Advance(traceTimout)
-			c.ev("adv(TraceTimeout)")
+			c.note("adv(TraceTimeout)")
 		case "spanlimit":
 			c.span(fx.Child, T, ph, false)
 			c.span(fx.Child, T, ph, false)
 			c.span(fx.Child, T, ph, false)
 			f.Advance(time.Nanosecond)
-			c.ev("adv(1ns)")
+			c.note("adv(1ns)")
 		case "eject":
 			c.span(fx.Child, T, ph, false)
 			c.span(fx.Child, T, ph, false)
@@ -458,10 +458,10 @@ func (c *cell) run(keptID, droppedID string) {
 		}
 		if pc.decide == "eject" {
 			f.Eject(0, 1<<40)
-			c.ev("eject")
+			c.note("eject")
 		} else {
 			f.Tick(0)
-			c.ev("tick")
+			c.note("tick")
 		}
 		if len(f.Buffered(0)) != 0 {
 			// when a trace is decided is C03's subject; this cell did not reach its path
@@ -479,7 +479,7 @@ func (c *cell) run(keptID, droppedID string) {
 			ev.Harness("%s/%s: the keep draw is not owned: wanted dropped=%v, decision cache says %+v", sc.name, pc.name, pc.drop, d)
 		}
 		f.SendAll()
-		c.ev("send*")
+		c.note("send*")
 	}
 	// ---- stress relief decides a new trace
 	recorded := T
@@ -490,7 +490,7 @@ func (c *cell) run(keptID, droppedID string) {
 	}
 	if pc.reload {
 		f.Reload(func(m *config.MockConfig) { m.GetSamplerTypeVal = &config.DeterministicSamplerConfig{SampleRate: reloadRate} })
-		c.ev(fmt.Sprintf("reload(deterministic %d)", reloadRate))
+		c.note(fmt.Sprintf("reload(deterministic %d)", reloadRate))
 	}
 	rl := ""
 	if pc.reload {
